@@ -34,8 +34,13 @@ func Range(start, end, step int) SortedInts {
 	}
 
 	if end < start {
-		start, end = end, start
-		step = -step
+		//The elements are start, start+step, ... down to (but excluding) end; fill them in from the back so the result is increasing.
+		size := (start - end - step - 1) / -step
+		tmp := make([]int, size)
+		for i := range tmp {
+			tmp[size-1-i] = start + i*step
+		}
+		return tmp
 	}
 
 	tmp := make([]int, 0, (end-start+step-1)/step)
